@@ -134,9 +134,12 @@ func RouterTerm(r opfix.Router) string {
 var sidRe = regexp.MustCompile(`^(at|rt)([1-9][0-9]{0,2})$`)
 
 func SidTerm(id string) string {
+	if id == "" {
+		return "NoId"
+	}
 	m := sidRe.FindStringSubmatch(id)
 	if m == nil {
-		return "NoId"
+		return "Junk"
 	}
 	n, _ := strconv.Atoi(m[2])
 	if m[1] == "at" {
@@ -329,9 +332,7 @@ func (w *World) UserInfo(r opfix.Router, t *Tok) {
 	case resp.Panic != "":
 		w.record(in, "OPanic", h)
 	case resp.Status == 200 && resp.JSON != nil:
-		_, name := resp.JSON["name"]
-		_, email := resp.JSON["email"]
-		w.record(in, emit.Ctor("OInfo", emit.Str(resp.Str("sub")), emit.Bool(name), emit.Bool(email)), h)
+		w.record(in, emit.Ctor("OInfo", emit.Str(resp.Str("sub"))), h)
 	default:
 		w.record(in, errTerm(resp), h)
 	}
@@ -348,21 +349,15 @@ func (w *World) Introspect(r opfix.Router, c Cred, t *Tok) {
 		w.record(in, "OPanic", h)
 	case resp.Status == 200 && resp.JSON != nil:
 		active, _ := resp.JSON["active"].(bool)
-		var others []string
-		for k := range resp.JSON {
-			switch k {
-			case "active", "sub", "client_id", "scope":
-			default:
-				others = append(others, k)
-			}
-		}
-		sort.Strings(others)
+		// "bare": an inactive answer has no member besides "active" (for active answers the
+		// profile claims are not part of the property and are projected away)
+		bare := active || len(resp.JSON) == 1
 		var scopes []string
 		if s := resp.Str("scope"); s != "" {
 			scopes = strings.Split(s, " ")
 		}
 		w.record(in, emit.Ctor("OIntro", emit.Bool(active), emit.Str(resp.Str("sub")), emit.Str(resp.Str("client_id")),
-			emit.StrList(scopes), emit.StrList(others)), h)
+			emit.StrList(scopes), emit.Bool(bare)), h)
 	default:
 		w.record(in, errTerm(resp), h)
 	}
@@ -470,11 +465,7 @@ func (w *World) Exchange(r opfix.Router, x Exch) {
 		case issued == "TId":
 			if p := opfix.JWTPayload(at); p != nil {
 				d := descOf(p, true)
-				act := ""
-				if a, ok := p["act"].(map[string]any); ok {
-					act, _ = a["sub"].(string)
-				}
-				access = emit.Ctor("XIdTok", emit.Str(d.sub), emit.Str(d.azp), emit.Str(act))
+				access = emit.Ctor("XIdTok", emit.Str(d.sub), emit.Str(d.azp))
 				w.Pool = append(w.Pool, &Tok{S: at, Kind: "idtok", Client: client, Sub: d.sub, jwt: d})
 			} else {
 				access = "XOther"
@@ -503,7 +494,7 @@ func (w *World) Exchange(r opfix.Router, x Exch) {
 			stored = emit.Some(emit.Ctor("TRec", emit.Str(t.ClientID), emit.Str(t.Subject), emit.Str(t.Actor),
 				emit.StrList(t.Scopes), emit.StrList(t.Audience), emit.Bool(!t.Expiration.After(time.Now()))))
 		}
-		w.record(in, emit.Ctor("OExch", issued, access, SidTerm(rt), emit.StrList(scopes), stored), h)
+		w.record(in, emit.Ctor("OExch", issued, access, SidTerm(rt), emit.Bool(rt != "" && w.St.RefreshLive(rt)), emit.StrList(scopes), stored), h)
 	default:
 		w.record(in, errTerm(resp), h)
 	}
@@ -622,7 +613,7 @@ func (w *World) TamperJWT(t *Tok) *Tok {
 // ---------------------------------------------------------------- case assembly
 
 func (w *World) Input() string {
-	return emit.Ctor("In", ClientsTerm(), emit.List(w.Ops))
+	return emit.Ctor("Hist", ClientsTerm(), emit.List(w.Ops))
 }
 
 func (w *World) Observed() string { return emit.List(w.Outs) }
